@@ -92,9 +92,54 @@ def run(prog, rep, tier):
     E2.skip_bodies = {f_tail['name']}          # analysed above with the same (arbitrary) argument
     runner.run_entry(E2, f_info)
     obl = E2.obligations()
-    DATA = {  # obligations of aircraft_information that depend on the embedded data file
-        ('{closure#0}', 'index'): 'bounds', ('{closure#0}', 'unwrap'): 'bounds', ('{closure#1}', 'unwrap'): 'patterns',
-    }
+    # obligations below aircraft_information that depend on the embedded data file: a `&text[2..]` on, or an
+    # `unwrap()` of a result computed from, a string of the deserialised table.  They are recognised by what
+    # produced the unwrapped value (from_str_radix / Regex::new), wherever the code sits in the module.
+    def producer(fn_name, key):
+        body = next((b_ for b_ in prog.bodies.values() if b_['name'] == fn_name and b_['crate'] == 'rs1090'), None)
+        if body is None:
+            return None
+        m_ = re.search(r'#call:.*::(\w+)#(\d+)$', key)
+        if not m_:
+            return None
+        item, ordn = m_.group(1), int(m_.group(2))
+        calls = [bb['t'] for bb in body['blocks'] if bb['t'] and bb['t']['k'] == 'call' and bb['t']['callee'] and bb['t']['callee'].get('item') == item]
+        if ordn >= len(calls):
+            return None
+        t_ = calls[ordn]
+        if item == 'index':
+            return 'index'
+        cur = t_['args'][0]['pl']['l'] if t_['args'] and t_['args'][0]['k'] != 'const' else None
+        for _ in range(8):
+            if cur is None:
+                return None
+            cdef = [bb['t'] for bb in body['blocks'] if bb['t'] and bb['t']['k'] == 'call' and bb['t']['dest']['l'] == cur and not bb['t']['dest']['p']]
+            if cdef:
+                # the parsed text must come from the table (a Register / Category value), not from a caller-supplied
+                # string or number
+                import dataflow
+
+                def src(pl):
+                    l_ = pl['l']
+                    if 1 <= l_ <= body['argc']:
+                        ty_ = prog.types[body['locals'][l_]]
+                        while ty_['k'] in ('ref', 'ptr'):
+                            ty_ = prog.types[ty_['to']]
+                        if not (ty_['k'] == 'adt' and ty_['name'].startswith('data::patterns::')) and ty_['k'] not in ('closure',):
+                            return {'user'}
+                    return None
+                tt_ = dataflow.Taint(prog, body, src)
+                if any('user' in tt_.operand_taint(a_) for a_ in cdef[0]['args']):
+                    return 'user-input'
+                return (cdef[0]['callee'] or {}).get('item')
+            defs = [s_ for bb in body['blocks'] for s_ in bb['s'] if s_['k'] == 'assign' and s_['pl']['l'] == cur and not s_['pl']['p']]
+            if len(defs) != 1:
+                return None
+            import dataflow
+            pls = dataflow.rvalue_places(defs[0]['rv'])
+            cur = pls[0]['l'] if pls else None
+        return None
+    RULE_OF = {'index': 'bounds', 'from_str_radix': 'bounds', 'new': 'patterns'}
     nd = 0
     for k in sorted(obl):
         o = obl[k]
@@ -102,9 +147,8 @@ def run(prog, rep, tier):
             rep.ok('Q1-totality', k, o['nontrivial'])
             continue
         rule = None
-        for (cl, what), r in DATA.items():
-            if o['fn'].endswith('aircraft_information::' + cl) and ('::' + what + '#') in k:
-                rule = r
+        if o['fn'].startswith('data::patterns::'):
+            rule = RULE_OF.get(producer(o['fn'], k))
         ob = o['open'][0]
         if rule is not None:
             nd += 1
@@ -249,7 +293,7 @@ def run(prog, rep, tier):
         seen = []
 
         def hook(E_, frame, bb, t, sts, c):
-            if frame.depth == 0 and c.get('item') == item and (rself is None or any((c.get('name') or '').startswith('<%s as ' % r) or (c.get('name') or '').endswith('::<%s>' % r) for r in rself)):
+            if ('::' + fn) in frame.body['name'] and frame.depth <= 2 and c.get('item') == item and (rself is None or any((c.get('name') or '').startswith('<%s as ' % r) or (c.get('name') or '').endswith('::<%s>' % r) for r in rself)):
                 for st in sts:
                     v = E_.operand(st, frame, t['args'][argi])
                     v = st.resolve(v)
